@@ -44,6 +44,7 @@ type c14Tunnel struct {
 	IP   uint32
 	Teid uint32
 	Fwd  bool
+	NoIf bool // the update that set this tunnel did not repeat the Destination Interface IE
 }
 
 func TestVerif_C14(t *testing.T) {
@@ -198,6 +199,14 @@ func TestVerif_C14(t *testing.T) {
 							nf.OHCIP = vIPStr(old.IP)
 						}
 					}
+					switch rng.Intn(8) {
+					case 0:
+						// the update does not repeat the Destination Interface (it only carries the new tunnel)
+						nf.HasDst = false
+					case 1:
+						// the rule is turned around: it forwards to the core side from now on (no tunnel)
+						nf = vFARSpec{ID: id, Action: ActionForward, Fwd: true, HasDst: true, DstIf: ie.DstInterfaceCore}
+					}
 					flag := old.Fwd && rng.Intn(2) == 0
 					if flag {
 						nf.SndEM = true
@@ -210,8 +219,8 @@ func TestVerif_C14(t *testing.T) {
 						nf.SMExtra = []uint8{0x01, 0x04, 0x05, 0x80, 0xFD}[rng.Intn(5)]
 					}
 					mod.UpFAR = append(mod.UpFAR, nf)
-					if nf.Action&ActionForward != 0 {
-						newTun[id] = c14Tunnel{IP: vIP4(nf.OHCIP), Teid: nf.OHCTeid, Fwd: true}
+					if nf.Action&ActionForward != 0 && nf.OHC {
+						newTun[id] = c14Tunnel{IP: vIP4(nf.OHCIP), Teid: nf.OHCTeid, Fwd: true, NoIf: !nf.HasDst}
 					} else {
 						newTun[id] = c14Tunnel{}
 					}
@@ -308,7 +317,19 @@ func TestVerif_C14(t *testing.T) {
 						res.violate("C14.R2", "ports", fmt.Sprintf("end marker with UDP ports %d->%d", mk.Sport, mk.Dport), w)
 					}
 					if mk.Src != n3 {
-						res.violate("C14.R2", "source-address", fmt.Sprintf("end marker sourced from %s, the UPF's address on the access interface is %s", vIPStr(mk.Src), vIPStr(n3)), w)
+						lostIf := false
+						for _, e := range want {
+							if e.old.IP == mk.Dst && e.old.Teid == mk.Teid && e.old.NoIf {
+								lostIf = true
+							}
+						}
+						if lostIf && mk.Src == 0 {
+							// recorded finding: an Update FAR replaces the stored rule as a whole; one that does not repeat the
+							// Destination Interface leaves the rule without interface and tunnel source address
+							res.violate("C14.R2", "source-address-lost-after-update-without-destination-interface", fmt.Sprintf("end marker sourced from 0.0.0.0 (expected %s): the rule's previous update carried the new tunnel but no Destination Interface IE, and the stored rule lost its interface and source address", vIPStr(n3)), w)
+						} else {
+							res.violate("C14.R2", "source-address", fmt.Sprintf("end marker sourced from %s, the UPF's address on the access interface is %s", vIPStr(mk.Src), vIPStr(n3)), w)
+						}
 					}
 					match := false
 					for _, e := range want {
